@@ -655,6 +655,21 @@ fn handle(st: &mut St, line: &str) -> Result<String, String> {
                 _ => Ok("err".into()),
             }
         }
+        "DLN" => {
+            // Event::delineate on a slice of <total> bytes that starts with the given event bytes (the rest zero):
+            // what get_event_by_offset hands it when <total - len> bytes of later events follow in the map
+            let b = unhex(a[0])?;
+            let total: usize = a[1].parse().map_err(|_| "len".to_string())?;
+            if total < b.len() {
+                return Ok("bad-request".into());
+            }
+            let mut v = vec![0u8; total];
+            v[..b.len()].copy_from_slice(&b);
+            match unsafe { Event::delineate(&v) } {
+                Ok(e) => Ok(format!("ok {}", e.as_bytes().len())),
+                Err(_) => Ok("err".into()),
+            }
+        }
         "EVA" => {
             let b = unhex(a[0])?;
             match unsafe { Event::delineate(&b) } {
